@@ -2,7 +2,7 @@
    incoming stream (Spec.StreamSpec.segT), the reference frame predicate (Spec.FrameSpec) and the reference
    packet walk.  No scanner, no buffer, no read schedule. *)
 From Coq Require Import String.
-Require Import Base.Bytes Model.Packet Model.Split Lib.Bufio Spec.FrameSpec Spec.StreamSpec Gen.Funcs Model.Client.
+Require Import Base.Bytes Model.Packet Model.Split Lib.Bufio Spec.FrameSpec Spec.StreamSpec Spec.Terminal Gen.Funcs Model.Client.
 Open Scope N_scope.
 
 Record sclient := {
@@ -16,7 +16,6 @@ Record sclient := {
   swplan : list bool
 }.
 
-Definition tterm (z : term) (fin : terminal) := match z with STooLong => TTooLong | SEnd => fin end.
 
 Definition snew (stream : bytes) (fin : terminal) (wplan : list bool) : sclient :=
   let '(ts, z) := segT stream in
